@@ -343,7 +343,7 @@ namespace BitSerializer::Convert::Detail
 				utc.SecFractions = ns;
 			}
 			// Should have 'Z' at the end of UTC datetime
-			if (pos == end || *pos != 'Z') {
+			if (pos == end || *pos != 'Z' || pos + 1 != end) {
 				throw std::invalid_argument("Input string is not a valid ISO datetime: YYYY-MM-DDThh:mm:ss[.SSS]Z");
 			}
 			return utc;
